@@ -987,7 +987,7 @@ def compare(case, obs, rs):
                     cmp_read(f"roundtrip[{rec['rep']}]", rec.get("result"), next(it), dis)
     elif k == "legacy":
         # a single-point axis gets the 1e-9 default cell: origin - 0.5e-9 rounds in binary64
-        cmp_read("from_file[legacy]", obs.get("result"), next(it), dis, exact=(case["regime"] == "exact" and min(case["N"]) > 1))
+        cmp_read("from_file[legacy]", obs.get("result"), next(it), dis, exact=(case["regime"] == "exact" and min(case["N"]) > 1 and case["defect"] != "coords-split"))
     elif k == "tamper":
         cmp_read(f"from_file[{case['tamper']}]", obs.get("result"), next(it), dis)
     return dis
